@@ -85,6 +85,68 @@ func init() {
 			out.Infra = append(out.Infra, err.Error())
 		}
 	}
+	// erroneous statements enumerated by TLC (MCTyping mutants): the error sits at every operator / operand / call
+	replayFamilies["errstmts"] = func(args []string) {
+		c := parseCommon("errstmts", args, nil)
+		out := NewOut(c.out, c.prop)
+		defer out.Close()
+		idx := 0
+		err := readTLCLines(c.in, func(raw []byte) {
+			var tc typCase
+			if err := json.Unmarshal(raw, &tc); err != nil || tc.Kind != "case" || !tc.Mutant {
+				return
+			}
+			idx++
+			if (idx-1)%c.shards != c.shard {
+				return
+			}
+			tc.Stmt.fix()
+			id := shortHash(raw)
+			if c.only != "" && c.only != id {
+				return
+			}
+			out.Stats.Cases++
+			base := tc.Stmt.Text()
+			out.Stats.distinct(base, true)
+			for vi, v := range []struct {
+				lead, trail, pad int
+				long bool
+			}{{0, 0, -1, false}, {1, 4, 0, false}, {4, 1, 12, true}} {
+				q := base
+				if v.long && tc.Stmt.Kind == "select" && len(tc.Stmt.Order) == 0 && !tc.Stmt.Lim.Has {
+					q += " & key != 'zzzzzzzzzzzzzzzzzzzz_filler_to_make_the_statement_longer_than_seventy_bytes'"
+				}
+				q = strings.Repeat(" ", v.lead) + q + strings.Repeat(" ", v.trail)
+				o, _ := RunOn(q, nil, RunOpts{Mode: "row", BSize: 2, Cache: true, NoLog: true})
+				out.Stats.Evaluations++
+				if o.err == nil {
+					continue
+				}
+				var se *kvql.SyntaxError
+				var ee *kvql.ExecuteError
+				pos, kind := 0, ""
+				if errors.As(o.err, &se) {
+					pos, kind = se.Pos, "syntax"
+				} else if errors.As(o.err, &ee) {
+					pos, kind = ee.Pos, "execute"
+				} else {
+					continue
+				}
+				s, p := renderErr(o.err, q, v.pad)
+				effPad := v.pad
+				if effPad < 0 {
+					effPad = kvql.DefaultErrorPadding
+				}
+				if out.Stats.Cases%300 == 1 && vi == 1 {
+					out.Stats.sample(map[string]any{"query": q, "pos": pos, "kind": kind, "rendered": s})
+				}
+				out.Trace("errs", errTrace{ID: fmt.Sprintf("%s#%d", id, vi), Q: q, QB: bi([]byte(q)), Pos: pos, Pad: effPad, EKind: kind, TokPos: tokenStarts(q), Out: bi([]byte(s)), Panic: p})
+			}
+		})
+		if err != nil {
+			out.Infra = append(out.Infra, err.Error())
+		}
+	}
 	recordFamilies["errs"] = func(args []string) {
 		c := parseCommon("errs", args, nil)
 		out := NewOut(c.out, c.prop)
